@@ -485,7 +485,7 @@ func (g *ProgGen) Gen() *Program {
 		Plan: map[string]interface{}{"kind": "none"}, Aliases: map[string]bool{}}
 	g.prog = p
 	nt := 2 + g.pick(3)
-	nss := []string{"n.one", "n.two"}
+	nss := []string{"n.one", "n.two", "n.one.deep"}
 	nsAttr := map[string]string{}
 	for _, ns := range nss {
 		nsAttr[ns] = []string{"", "", "true", "false", "contextual"}[g.pick(5)]
@@ -512,6 +512,7 @@ func (g *ProgGen) Gen() *Program {
 	}
 	p.Aliases["n.one"] = g.pick(2) == 0
 	p.Aliases["n.two"] = g.pick(2) == 0
+	p.Aliases["n.one.deep"] = g.pick(3) == 0
 	for k, name := range g.tmplNames {
 		ps := g.tmplParams[name]
 		sc := &gscope{map[string]bool{}, map[string]bool{}, map[string]bool{}}
